@@ -207,7 +207,9 @@ TraceAccepted ==
 \* Checked on complete explanations only (the end of the trace): TLC also visits dead-end branches of the
 \* explanation search, and an invariant violated there says nothing about the real execution.
 \* C14 on the real execution: every write whose acknowledgement was OBSERVED before Close was invoked
-\* is read back after the restart (unless the named gap deviation was exercised).
+\* is read back after the restart (unless the named gap deviation was exercised).  Since the Write/Close race was
+\* repaired (7e3580a, DropRace = FALSE) this is required of EVERY observed acknowledgement, also those that arrive
+\* while Close is in progress.
 TInv_NoAckedLoss ==
-  (l = Len(TraceLog) + 1 /\ wclosed) => (dev # {} \/ \A c \in Clients : Recover(snap, file)[c] >= ackclose[c])
+  (l = Len(TraceLog) + 1 /\ wclosed) => (dev # {} \/ \A c \in Clients : Recover(snap, file)[c] >= (IF DropRace THEN ackclose[c] ELSE ackseen[c]))
 =============================================================================
